@@ -150,6 +150,28 @@ func leaves(v ssa.Value) []string {
 			if refs := x.Referrers(); refs != nil {
 				for _, r := range *refs {
 					switch y := r.(type) {
+					case *ssa.UnOp:
+						// a slice variable filled by index through loads of the variable: xs[i].f = v
+						if y.Op == token.MUL && y.Referrers() != nil {
+							for _, r2 := range *y.Referrers() {
+								ia, ok := r2.(*ssa.IndexAddr)
+								if !ok {
+									continue
+								}
+								for _, st := range storesTo(ia) {
+									rec(st.Val, d+1)
+								}
+								if rr := ia.Referrers(); rr != nil {
+									for _, r3 := range *rr {
+										if fa, ok := r3.(*ssa.FieldAddr); ok {
+											for _, st := range storesTo(fa) {
+												rec(st.Val, d+1)
+											}
+										}
+									}
+								}
+							}
+						}
 					case *ssa.IndexAddr:
 						for _, st := range storesTo(y) {
 							rec(st.Val, d+1)
@@ -189,7 +211,29 @@ func leaves(v ssa.Value) []string {
 			rec(x.Index, d+1)
 		case *ssa.TypeAssert:
 			rec(x.X, d+1)
-		case *ssa.MakeSlice, *ssa.MakeMap:
+		case *ssa.MakeSlice:
+			// a slice made to size and filled by index (xs := make(T, n); xs[i].f = v): what its elements hold
+			if refs := x.Referrers(); refs != nil {
+				for _, r := range *refs {
+					ia, ok := r.(*ssa.IndexAddr)
+					if !ok {
+						continue
+					}
+					for _, st := range storesTo(ia) {
+						rec(st.Val, d+1)
+					}
+					if rr := ia.Referrers(); rr != nil {
+						for _, r2 := range *rr {
+							if fa, ok := r2.(*ssa.FieldAddr); ok {
+								for _, st := range storesTo(fa) {
+									rec(st.Val, d+1)
+								}
+							}
+						}
+					}
+				}
+			}
+		case *ssa.MakeMap:
 		case *ssa.MakeClosure:
 			for _, b := range x.Bindings {
 				rec(b, d+1)
@@ -245,8 +289,14 @@ func literalFields(f *ssa.Function, typeName string) []map[string][]ssa.Value {
 		}
 		// skip local copies of parameters / results of calls (not literals)
 		whole := storesTo(al)
-		if len(whole) > 0 {
-			return
+		for _, st := range whole {
+			if ld, ok := st.Val.(*ssa.UnOp); ok && ld.Op == token.MUL && ld.X == ssa.Value(al) {
+				continue // `return x, nil` with a named result x: the result variable assigned to itself
+			}
+			if !isZeroStruct(st.Val) {
+				return
+			}
+			// (a named result reset to T{} on the error paths and filled field by field on the success path)
 		}
 		m := map[string][]ssa.Value{}
 		var walk func(base ssa.Value, prefix string)
@@ -266,6 +316,16 @@ func literalFields(f *ssa.Function, typeName string) []map[string][]ssa.Value {
 				}
 				for _, st := range storesTo(fa) {
 					m[prefix+fn] = append(m[prefix+fn], st.Val)
+				}
+				// an array field filled by copy(lit.f[:], src) instead of lit.f = value
+				if rr := fa.Referrers(); rr != nil {
+					for _, r2 := range *rr {
+						if sl, ok := r2.(*ssa.Slice); ok {
+							for _, src := range copiedInto(sl) {
+								m[prefix+fn] = append(m[prefix+fn], src)
+							}
+						}
+					}
 				}
 				walk(fa, prefix+fn+".")
 			}
@@ -434,8 +494,16 @@ func enumEval(f *ssa.Function, callee string, s string) []*ssa.Return {
 	if len(f.Blocks) > 0 {
 		walk(f.Blocks[0], nil)
 	}
+	// the blocks that can run for this enum value (for rules that must not credit a store made on another case's path)
+	enumBlocks = map[*ssa.BasicBlock]bool{}
+	for k := range seen {
+		enumBlocks[k.b] = true
+	}
 	return rets
 }
+
+// enumBlocks: set by the last enumEval call - the blocks reachable for the evaluated enum value.
+var enumBlocks map[*ssa.BasicBlock]bool
 
 // opTree renders the operator tree of a value with parameter and local names erased, so that the
 // same computation in sibling functions compares equal.
@@ -582,4 +650,31 @@ func leavesCx(v ssa.Value, cx *vctx) []string {
 	}
 	sort.Strings(out)
 	return out
+}
+
+// isZeroStruct: v is the zero value of a struct type: a nil-valued constant, or the load of a local
+// literal none of whose fields is assigned (T{}).
+func isZeroStruct(v ssa.Value) bool {
+	switch x := v.(type) {
+	case *ssa.Const:
+		return x.Value == nil
+	case *ssa.UnOp:
+		al, ok := x.X.(*ssa.Alloc)
+		if !ok || x.Op != token.MUL || al.Referrers() == nil {
+			return false
+		}
+		for _, r := range *al.Referrers() {
+			switch y := r.(type) {
+			case *ssa.UnOp, *ssa.DebugRef:
+			case *ssa.Store:
+				if y.Addr == ssa.Value(al) && !isZeroStruct(y.Val) {
+					return false
+				}
+			default:
+				return false
+			}
+		}
+		return true
+	}
+	return false
 }
